@@ -554,7 +554,24 @@ Keep(c) == /\ (Thin(c) = 1 \/ Hash(Flat(c), Thin(c)) = 0)
 (*         the exponent this contributes to the result (me times the number of times the formula    *)
 (*         uses the first operand), which the harness divides out exactly -- powers of two scale     *)
 (*         exactly, so the Value clause stays an exact integer comparison                           *)
-FormFields == {"ity", "dt", "ct", "sc", "rep", "me", "e2"}
+(*   mf  : the iterable that carries a SEQUENCE of modes (multi_mode_dot `modes`; the mode lists of  *)
+(*         tensordot `modes` / `batched_modes`): list, tuple, ndarray, range (when the modes form an  *)
+(*         arithmetic progression), dict keys, or a ONE-SHOT iterator: iter(..), a generator          *)
+(*         expression, map(int, ..), reversed(..).  The documentation only says "int list"; the        *)
+(*         functions merely iterate the argument (their own default is a lazy `range`), so every       *)
+(*         iterable must give the same value.  A one-shot iterator is rebuilt for every repeated call. *)
+FormFields == {"ity", "dt", "ct", "sc", "rep", "me", "e2", "mf"}
+AllModeForms == <<"list", "tuple", "array", "dictkeys", "iter", "gen", "map", "reversed", "range">>
+IsProgression(s) == Len(s) <= 1 \/ (s[2] # s[1] /\ \A k \in 2..Len(s) : s[k] - s[k - 1] = s[2] - s[1])
+ModeSeqs(c) ==      \* the mode sequences the call passes as iterables
+    CASE c.op = "multi_mode_dot" -> IF c.given THEN <<c.modes>> ELSE <<>>
+      [] c.op = "tensordot" -> (IF c.mint THEN <<>> ELSE <<c.m1, c.m2>>) \o (IF c.bint THEN <<>> ELSE <<c.b1, c.b2>>)
+      [] OTHER -> <<>>
+ModeForms(c) ==
+    LET ms == ModeSeqs(c) IN
+    IF Len(ms) = 0 THEN <<"list">>
+    ELSE IF \A k \in 1..Len(ms) : IsProgression(ms[k]) THEN AllModeForms
+    ELSE SubSeq(AllModeForms, 1, Len(AllModeForms) - 1)
 RepForms == <<1, 2, 3>>
 MagForms(c) == IF c.dt \in {"int_f", "f32_f64"} \/ Raises(c) THEN <<0>>     \* an int64 / float32 operand has no such range
                ELSE IF c.op = "moment" THEN <<0, -300, 300>> ELSE <<0, -600, 500>>
@@ -597,12 +614,14 @@ WithForms(c) ==
         f  == [ity |-> Rot(IntForms(c), h), dt |-> Rot(DtForms(c), h \div 3), ct |-> Rot(CtForms(c), h \div 15)]
         cf == c @@ f
         me == Rot(MagForms(cf), h \div 90)
-    IN  cf @@ [sc |-> ScaleCodes(cf), rep |-> Rot(RepForms, h \div 30), me |-> me, e2 |-> me * FirstUses(cf)]
+    IN  cf @@ [sc |-> ScaleCodes(cf), rep |-> Rot(RepForms, h \div 30), me |-> me, e2 |-> me * FirstUses(cf),
+               mf |-> Rot(ModeForms(cf), h \div 7)]
 ValidCfg(c) ==
     /\ BaseOK(c) /\ DOMAIN c = Fields(c.op) \cup FormFields
     /\ InSeq(c.ity, IntForms(c)) /\ InSeq(c.dt, DtForms(c)) /\ InSeq(c.ct, CtForms(c))
     /\ c.sc = ScaleCodes(c)
     /\ InSeq(c.rep, RepForms) /\ InSeq(c.me, MagForms(c)) /\ c.e2 = c.me * FirstUses(c)
+    /\ InSeq(c.mf, ModeForms(c))
 
 ----------------------------------------------------------------------------
 (* Theorems about the specification (evaluated by TLC in every state of the design run, i.e. for  *)
